@@ -1590,10 +1590,23 @@ def eval_retort_group(ctx: Ctx, real: Real, case, rng):
         for (kind, er), tp in zip(case["edits"], edits):
             if any(canon(sem_key(get_at(er, p), False)) == pred_sem for p in paths(er)):
                 continue    # a *part* of the edited hint is the registered type: the marker may surface through it
+            try:
+                if _norm_contains(real, real.norm(tp), real.norm(pred)):
+                    continue    # ... also a part that only exists in the normal form (merged literal members)
+            except Exception:
+                continue
             real._cache.cache_clear()
             o, v = outcome(lambda: retort.load(None, tp))
             if v is _HIT:
                 ctx.fail(f"pred-collapse:{kind}", f"loader registered for {show(pred)} serves the different type {show(tp)}", case)
+
+
+def _norm_contains(real: Real, n, part):
+    if n == part:
+        return True
+    if isinstance(n, real.BaseNormType) and not isinstance(n, real.NormTV):
+        return any(_norm_contains(real, a, part) for a in n.args if isinstance(a, real.BaseNormType))
+    return False
 
 
 def _jsonable(d):
@@ -1642,6 +1655,10 @@ def run(ctx: Ctx):
     suite_malformed(ctx, real, drv, n=ctx.budget(200, 3000))
     suite_retort(ctx, real, n=ctx.budget(350, 5000))
     ctx.extra["exhaustive"] = False
+    sigs: dict = {}
+    for f in ctx.failures:
+        sigs[f["signature"]] = sigs.get(f["signature"], 0) + 1
+    ctx.extra["oracle_failure_signatures"] = sigs
 
 
 def search(ctx: Ctx):
